@@ -45,6 +45,12 @@ def step (st : State) (line : String) : State × String :=
   | "REF9" :: args => (st, handleEncV "9" st args impl)
   | "RT" :: args => (st, handleRoundTrip st args impl)
   | "REC" :: args => (st, handleRec st args impl)
+  | "SRCT" :: args => handleSrcT st args
+  | "KEEPS" :: args => (st, handleKeeps st args impl)
+  | "CONVTT" :: args => (st, handleConvTT st args)
+  | "CONVTK" :: args => (st, handleConvTK st args)
+  | "BYTETAB" :: args => (st, handleByteTab args)
+  | "BYTEPIECE" :: args => (st, handleBytePiece args)
   | "BPE" :: args => (st, handlePiece st args impl)
   | "UNI" :: args => (st, handlePiece st args impl)
   | "WP" :: args => (st, handlePiece st args impl)
